@@ -383,6 +383,7 @@ func registerIntrinsics(e *Engine) {
 			return nil
 		}
 		p.flags[key] = true
+		p.sideMods++
 		p.callValue(fr, args[1], nil, pos)
 		return nil
 	}
@@ -397,6 +398,7 @@ func registerIntrinsics(e *Engine) {
 			p.nObj++
 			m = &MapV{ID: p.nObj}
 			p.syncMaps[key] = m
+			p.sideMods++
 		}
 		return m
 	}
@@ -418,7 +420,8 @@ func registerIntrinsics(e *Engine) {
 		if i >= 0 {
 			return TupleV{m.E[i].V, tTrue}
 		}
-		m.E = append(m.E, MapEntry{args[1], args[2]})
+		p.journalMap(m)
+		m.E = append(append([]MapEntry(nil), m.E...), MapEntry{K: args[1], V: args[2]})
 		return TupleV{args[2], tFalse}
 	}
 	I["(*sync.Map).Delete"] = func(p *Path, fr *frame, fn *ssa.Function, args []Value, pos token.Pos) Value {
@@ -510,6 +513,7 @@ func registerIntrinsics(e *Engine) {
 	I["(*sync/atomic.Value).Store"] = func(p *Path, fr *frame, fn *ssa.Function, args []Value, pos token.Pos) Value {
 		key := "av:" + viewKey(args[0].(PtrV))
 		p.atomVals[key] = args[1]
+		p.sideMods++
 		return nil
 	}
 	// errors / fmt
